@@ -128,15 +128,22 @@ class Check(PropertyCheck):
                   "written in Lean as exactly ONE message with the same method, path, fields and body; h2_to_h1_host / "
                   "_cookie / _other_fields say what that field list is (Host from :authority, cookies joined with '; ', "
                   "everything else unchanged and in order); h1_to_h2 (+ _names), h2_to_h2 are parse-back theorems for the "
-                  "blocks written over HTTP/2; status_preserved covers the three response conversions. The model is tied to "
+                  "blocks written over HTTP/2; the STREAMED conversion (flow.request.stream) is modelled too (h2ToH1Streamed): "
+                  "its full statement h2_to_h1_streamed_single_message is refuted by h2_to_h1_streamed_single_message_"
+                  "counterexample (the F-C06a witness: a streamed body without content-length is read as a second request) and "
+                  "proved as h2_to_h1_streamed_single_message_partial under the decidable guard streamedFramed (the head "
+                  "carries a content-length or there is no body); status_preserved covers the three response conversions. The model is tied to "
                   "the real layers by byte-exact differential runs over all four (client, server) version pairs with "
                   "adversarial header blocks, and the Lean reference reader to harness/common/refparsers.py on every byte "
                   "string mitmproxy wrote to an HTTP/1 server.")
     level_note = ("trusted / not proved: that hyper-h2 enforces H2Valid and content-length = body length (hypotheses of the "
                   "theorems; exercised by the differential run — the one hole found, END_STREAM on the HEADERS frame, is "
                   "finding F-C06b); url.parse_authority (its verdict is a parameter); hpack. PARTIAL: the streamed "
-                  "(flow.request.stream) conversion is neither modelled nor proved — it is checked by the oracle only and "
-                  "violates the property for bodies without content-length (finding F-C06a, pinned by an upstream test). "
+                  "(flow.request.stream) request conversion violates the property for bodies without content-length (finding "
+                  "F-C06a, pinned by an upstream test): the code does NOT re-frame such a body as chunked, so the theorem is "
+                  "_partial + _counterexample, and the model reproduces the defect byte for byte in the differential run; "
+                  "streamed RESPONSES towards HTTP/1 are close-delimited and only checked by the oracle (the Lean reference "
+                  "reader has no response-stream side). "
                   "HTTP/3 is NOT exercised: Http3Server/Http3Client share parse_h2_request_headers / format_h2_*_headers and "
                   "the Http1 conversion with HTTP/2 (covered), the aioquic H3 framing is not. Trailers are only required to "
                   "survive HTTP/2 -> HTTP/2 (oracle + model): mitmproxy has no HTTP/1 trailer support, an HTTP/1 hop is "
@@ -701,8 +708,25 @@ class Check(PropertyCheck):
         if not data or b"\n " in data or b"\n\t" in data: return None      # obs-fold: the Lean reader refuses it
         return data
 
+    def _streamed_line(self, case):
+        """streamed HTTP/2 -> HTTP/1 request (model: h2ToH1Streamed); only where the DATA frames cannot contradict an
+        announced length half-way through the forwarding"""
+        if not (case["cv"] == 2 and case["sv"] == 1) or case["req"].get("trailers"): return None
+        rq = case["req"]
+        blk = U(rq["block"]); body = unhx(rq["body_hex"])
+        cl = [v for k, v in blk if k == b"content-length"]
+        if cl and not all(v == b"%d" % len(body) for v in cl): return None
+        auth = dict(split_block(blk)[0]).get(b":authority", b"")
+        ok = 1
+        if auth:
+            try: url.parse_authority(auth, check=True)
+            except ValueError: ok = 0
+        return f"reqs {ok} {enc_pairs(blk)} {rq['body_hex']}"
+
     def model_lines(self, case):
-        if case.get("stream"): return None          # the streamed conversion is not modelled (F-C06a lives there)
+        if case.get("stream"):
+            line = self._streamed_line(case)
+            return None if line is None else [line]
         req = self._req_line(case)
         if req is None: return None
         lines = [req]
@@ -715,6 +739,8 @@ class Check(PropertyCheck):
         return lines
 
     def model_obs(self, case, replies):
+        if case.get("stream"):
+            return {"req": replies[0], "resp": None, "ref": None}
         out = {"req": replies[0], "resp": None, "ref": None}
         rest = list(replies[1:])
         if self._resp_line(case) is not None and rest:
@@ -733,6 +759,7 @@ class Check(PropertyCheck):
                 s0 = up["streams"][0]
                 req = f"h2 {enc_pairs(U(s0['headers']))} {s0['body_hex'] or '-'} {enc_pairs(U(s0['trailers']))}"
         out = {"req": req, "resp": None, "ref": None}
+        if case.get("stream"): return out
         if self._resp_line(case) is not None:
             if req == "reject":
                 out["resp"] = "n/a"
